@@ -66,15 +66,18 @@ fn parse_args() -> Result<Opt, pico_args::Error> {
         print_and_exit(&get_short_help());
     }
 
-    if pargs.contains(["-h", "--help"]) {
-        print_and_exit(&get_help());
-    }
-
+    // The bounds are taken out before any flag is looked up: pico_args (combined
+    // flags) searches every remaining single-dash argument for the flag's letter,
+    // so a bounds value such as `-1=hello` would be read as `-h`.
     let mut maybe_fields: Option<UserBoundsList> = pargs.opt_value_from_str(["-f", "--fields"])?;
     let maybe_characters: Option<UserBoundsList> =
         pargs.opt_value_from_str(["-c", "--characters"])?;
     let maybe_bytes: Option<UserBoundsList> = pargs.opt_value_from_str(["-b", "--bytes"])?;
     let maybe_lines: Option<UserBoundsList> = pargs.opt_value_from_str(["-l", "--lines"])?;
+
+    if pargs.contains(["-h", "--help"]) {
+        print_and_exit(&get_help());
+    }
 
     let bounds_type = if maybe_fields.is_some() {
         BoundsType::Fields
